@@ -265,6 +265,17 @@ func TestVX_C09(t *testing.T) {
 			}
 		}
 	}
+	// the RPM monitor starts ticking when the closed loop starts, one second (plus one tick) before the first control cycle:
+	// windows -1 and -2 cover the monitor's first tick and the instant before it
+	for _, c := range comps[:3] {
+		for _, k := range []string{"error", "garbage"} {
+			// -18: the fault is present when the daemon starts (first read of every sensor / of the fan's PWM and mode) and
+			// clears 200 ms later
+			for _, w := range []int{-18, -2, -1} {
+				singles = append(singles, vxFault{Component: c.c, Kind: k, Window: w})
+			}
+		}
+	}
 	var jobs []vxJob
 	ci := 0
 	for _, fk := range []string{"hwmon", "file", "cmd"} {
@@ -291,7 +302,7 @@ func TestVX_C09(t *testing.T) {
 				add()
 				heavy := fk == "cmd" || sk == "cmd"
 				for si, f := range singles {
-					if heavy && !mc.Thorough() && f.Window%2 == 1 {
+					if heavy && !mc.Thorough() && f.Window%2 == 1 && f.Window > 0 {
 						continue // quick: cmd back-ends spawn hundreds of processes per execution; windows 0,2,4 only
 					}
 					_ = si
@@ -339,7 +350,7 @@ func TestVX_C09(t *testing.T) {
 							if fa.Component == fb.Component && fa.Window == fb.Window {
 								continue
 							}
-							if !mc.Thorough() && (fa.Window > 1 || fb.Window > 2) {
+							if !mc.Thorough() && (fa.Window > 1 || fb.Window > 2 || fa.Window < 0 || fb.Window < 0) {
 								continue
 							}
 							if mc.Thorough() && heavy && (fa.Window > 1 || fb.Window > 2) {
